@@ -62,11 +62,11 @@ Lemma recover_dput_irrelevant bs d b r s g k v :
   recover bs d = VOk b r s g -> reads_value r s k = false -> recover bs (dput d k v) = VOk b r s g.
 Proof.
   unfold recover. intros H Hk.
-  destruct (d KHrs) as [[| |r0 s0|]|] eqn:E1; try discriminate.
-  destruct (d (KFh r0 s0)) as [[|b0| |]|] eqn:E2; try discriminate.
+  destruct (d KHrs) as [[| |r0 s0| |]|] eqn:E1; try discriminate.
+  destruct (d (KFh r0 s0)) as [[|b0| | |]|] eqn:E2; try discriminate.
   destruct (has d (KHsh 0) && has d (KHdr b0) && state_ok bs d b0) eqn:E3; [|discriminate].
   destruct (has d (KBlb b0)) eqn:E4; [|discriminate].
-  destruct (d KSetID) as [[| | |g0]|] eqn:E5; try discriminate.
+  destruct (d KSetID) as [[| | |g0|]|] eqn:E5; try discriminate.
   destruct (has d (KAuth g0)) eqn:E6; [|discriminate].
   destruct (has d (KChange g0)) eqn:E7; [|discriminate].
   inversion H; subst.
@@ -304,9 +304,9 @@ Proof.
   assert (H3 : recover bsF (dput d2 KSetID (VNum (g + 1))) = VOk b r s (g + 1)).
   { clear H H1. unfold recover in *.
     assert (E1 : dput d2 KSetID (VNum (g + 1)) KHrs = d2 KHrs) by (apply dput_other; discriminate).
-    rewrite E1. destruct (d2 KHrs) as [[| |r0 s0|]|]; try discriminate.
+    rewrite E1. destruct (d2 KHrs) as [[| |r0 s0| |]|]; try discriminate.
     assert (E2 : dput d2 KSetID (VNum (g + 1)) (KFh r0 s0) = d2 (KFh r0 s0)) by (apply dput_other; discriminate).
-    rewrite E2. destruct (d2 (KFh r0 s0)) as [[|b0| |]|]; try discriminate.
+    rewrite E2. destruct (d2 (KFh r0 s0)) as [[|b0| | |]|]; try discriminate.
     destruct (has d2 (KHsh 0) && has d2 (KHdr b0) && state_ok bsF d2 b0) eqn:E3; [|discriminate].
     destruct (has d2 (KBlb b0)) eqn:E4; [|discriminate].
     apply andb_true_iff in E3. destruct E3 as [E3 E3c]. apply andb_true_iff in E3. destruct E3 as [E3a E3b].
@@ -319,7 +319,7 @@ Proof.
     assert (C : has (dput d2 KSetID (VNum (g + 1))) (KChange (g + 1)) = true).
     { apply has_dput. unfold d2. apply has_dput_same. }
     rewrite A, C.
-    destruct (d2 KSetID) as [[| | |g0]|]; try discriminate.
+    destruct (d2 KSetID) as [[| | |g0|]|]; try discriminate.
     destruct (has d2 (KAuth g0)); [|discriminate]. destruct (has d2 (KChange g0)); [|discriminate].
     inversion H2; subst. reflexivity. }
   split.
@@ -409,6 +409,25 @@ Proof.
   - rewrite app_length. simpl. lia.
 Qed.
 
+(* ---- epoch-table writes ---- *)
+Lemma epoch_key_not_read r s k : epoch_key k = true -> reads_value r s k = false.
+Proof. destruct k; simpl; intros H; try discriminate; reflexivity. Qed.
+
+Lemma eunits_irrelevant r s ep :
+  forallb eunit_ok ep = true -> forallb (unit_irrelevant r s) (map eunit_w ep) = true.
+Proof.
+  induction ep as [|u ep IH]; simpl; intros H; [reflexivity|].
+  apply andb_true_iff in H. destruct H as [H1 H2]. rewrite (IH H2), andb_true_r.
+  destruct u as [k|l]; simpl in *.
+  - rewrite (epoch_key_not_read r s k H1). reflexivity.
+  - induction l as [|k l IHl]; simpl in *; [reflexivity|].
+    apply andb_true_iff in H1. destruct H1 as [Hk Hl].
+    rewrite (epoch_key_not_read r s k Hk), (IHl Hl). reflexivity.
+Qed.
+
+Lemma babe_units_irrelevant r s bd x : forallb (unit_irrelevant r s) (babe_units bd x) = true.
+Proof. destruct bd; reflexivity. Qed.
+
 (* ---- finalisation ---- *)
 Lemma fin_block_units_irrelevant bs r s x : forallb (unit_irrelevant r s) (fin_block_units bs x) = true.
 Proof. unfold fin_block_units. destruct (numof bs x =? 1); reflexivity. Qed.
@@ -474,41 +493,41 @@ Lemma step_safe bsF st d r s o :
 Proof.
   intros I Hext. unfold step in *. destruct (valid st o) eqn:Hv; simpl negb in *; cbn iota in *.
   2:{ exists r, s. simpl. split; [reflexivity|exact I]. }
-  destruct o as [p dg|b r'].
+  destruct o as [p ap bd|b r' ap ep].
   - (* import *)
-    simpl in Hv. apply andb_true_iff in Hv. destruct Hv as [Hv _]. apply andb_true_iff in Hv.
-    destruct Hv as [Hp _]. apply N.ltb_lt in Hp.
+    simpl in Hv. apply andb_true_iff in Hv. destruct Hv as [Hp _]. apply N.ltb_lt in Hp.
     set (bs := s_blocks st) in *. set (x := N.of_nat (length bs)) in *.
     set (bs' := bs ++ [mkb p (numof bs p + 1)]) in *.
-    set (sched' := match dg with DSched dl => Some (x, dl) | _ => s_sched st end) in *.
-    set (forced' := match dg with DForced dl => Some (x, dl) | _ => s_forced st end) in *.
-    assert (Hirr : forallb (unit_irrelevant r s) [WBatch [(KSt x, VUnit)]] = true) by reflexivity.
+    set (U := [WBatch [(KSt x, VUnit)]] ++ babe_units bd x).
+    assert (Hirr : forallb (unit_irrelevant r s) U = true).
+    { unfold U. rewrite forallb_app, babe_units_irrelevant. reflexivity. }
     pose proof (Inv_irrelevant _ _ _ _ _ _ I Hirr) as I1.
     pose proof (walk_irrelevant' _ _ _ _ _ _ I Hirr) as W1.
-    assert (Hst : has (replay d [WBatch [(KSt x, VUnit)]]) (KSt x) = true) by (simpl; apply has_dput_same).
-    destruct (forced_applies bs' forced' x) eqn:Hf; cbn [fst snd s_blocks] in Hext |- *.
-    + assert (I2 : Inv bsF (mks bs' (s_fin st) (s_round st) (s_set st) None None)
-                       (replay d [WBatch [(KSt x, VUnit)]]) r s).
+    assert (Hst : has (replay d U) (KSt x) = true).
+    { unfold U. rewrite replay_app. apply grows_replay. simpl. apply has_dput_same. }
+    destruct ap; cbn [fst snd s_blocks] in Hext |- *.
+    + assert (I2 : Inv bsF (mks bs' (s_fin st) (s_round st) (s_set st) None None) (replay d U) r s).
       { apply Inv_import; auto. apply (i_le _ _ _ _ _ I). }
       destruct (Inv_change bsF _ _ r s 0 None None I2) as [W2 I3]. simpl in W2, I3.
+      assert (E : [WBatch [(KSt x, VUnit)]] ++ babe_units bd x ++ set_change_units (s_set st)
+                  = U ++ set_change_units (s_set st)) by (unfold U; rewrite app_assoc; reflexivity).
       exists r, s. split.
-      * change ([WBatch [(KSt x, VUnit)]] ++ set_change_units (s_set st))
-          with ([WBatch [(KSt x, VUnit)]] ++ set_change_units (s_set st)).
-        rewrite walk_app, W1. unfold cur_of in *. simpl. exact W2.
-      * rewrite replay_app. exact I3.
+      * rewrite E, walk_app, W1. unfold cur_of in *. simpl. exact W2.
+      * rewrite E, replay_app. exact I3.
     + exists r, s. split; [exact W1|].
       apply Inv_import; auto. apply (i_le _ _ _ _ _ I).
   - (* finalise *)
     simpl in Hv. repeat (apply andb_true_iff in Hv; destruct Hv as [Hv ?]).
     apply N.ltb_lt in Hv.
     match goal with H : (s_round st <? r') = true |- _ => apply N.ltb_lt in H; rename H into Hrd end.
-    set (bs := s_blocks st) in *. set (g := s_set st) in *.
+    match goal with H : forallb eunit_ok ep = true |- _ => rename H into Hep end.
+    set (bs := s_blocks st) in *. set (g := s_set st) in *. set (E := map eunit_w ep).
     destruct (chain bs (s_fin st) b) as [ch|] eqn:Hc.
     2:{ exists r, s. simpl. split; [reflexivity|exact I]. }
     set (A1 := vote_units b r' g ++ concat (map (fin_block_units bs) ch) ++ hsh_batch bs ch).
     set (uFh := WPut (KFh r' g) (VBlk b)). set (uHrs := WPut KHrs (VPair r' g)). set (uLfr := WPut KLfr (VNum r')).
-    assert (Hws : vote_units b r' g ++ concat (map (fin_block_units bs) ch) ++ hsh_batch bs ch ++ [uFh; uHrs; uLfr]
-                  = (A1 ++ [uFh]) ++ [uHrs] ++ [uLfr]).
+    assert (Hws : vote_units b r' g ++ concat (map (fin_block_units bs) ch) ++ hsh_batch bs ch ++ [uFh; uHrs; uLfr] ++ E
+                  = (A1 ++ [uFh]) ++ [uHrs] ++ ([uLfr] ++ E)).
     { unfold A1. rewrite <- !app_assoc. reflexivity. }
     (* the pair (r', g) is new *)
     pose proof (i_le _ _ _ _ _ I) as Hle. fold g in Hle.
@@ -544,21 +563,25 @@ Proof.
     { apply (Inv_finalise bsF st dA r s b r' r' (s_sched st) (s_forced st) IA Hv HfhA HhdrA HblbA).
       apply le_rs_refl. }
     pose proof (Inv_recover _ _ _ _ _ IB) as RB. simpl in RB.
-    assert (HirrL : forallb (unit_irrelevant r' g) [uLfr] = true) by reflexivity.
+    assert (HirrL : forallb (unit_irrelevant r' g) ([uLfr] ++ E) = true).
+    { rewrite forallb_app. unfold E. rewrite (eunits_irrelevant r' g ep Hep). reflexivity. }
     pose proof (Inv_irrelevant _ _ _ _ _ _ IB HirrL) as IC.
     pose proof (walk_irrelevant' _ _ _ _ _ _ IB HirrL) as WC. unfold cur_of in WC. simpl in WC.
-    assert (Wmain : walk bsF (cur_of st r s) d ((A1 ++ [uFh]) ++ [uHrs] ++ [uLfr]) = Some (r', g, g)).
+    assert (Wmain : walk bsF (cur_of st r s) d ((A1 ++ [uFh]) ++ [uHrs] ++ ([uLfr] ++ E)) = Some (r', g, g)).
     { rewrite walk_app, WA. fold dA. rewrite walk_app. cbn [walk apply_unit uHrs].
       rewrite RB. unfold cur_of. fold g.
       assert (L : le_t (r, s, g) (r', g, g) = true) by (simpl; rewrite HleNew, N.leb_refl; reflexivity).
       rewrite L. cbn [replay fold_left apply_unit]. exact WC. }
-    assert (Rmain : replay d ((A1 ++ [uFh]) ++ [uHrs] ++ [uLfr]) = replay (dput dA KHrs (VPair r' g)) [uLfr]).
+    assert (Rmain : replay d ((A1 ++ [uFh]) ++ [uHrs] ++ ([uLfr] ++ E)) = replay (dput dA KHrs (VPair r' g)) ([uLfr] ++ E)).
     { rewrite replay_app. fold dA. rewrite replay_app. reflexivity. }
-    destruct (sched_applies bs (s_sched st) b) eqn:Hsa; cbn [fst snd s_blocks] in Hext |- *.
+    destruct ap; cbn [fst snd s_blocks] in Hext |- *.
     + destruct (Inv_change bsF _ _ r' g 0 None (s_forced st) IC) as [W2 I3]. simpl in W2, I3.
+      assert (Hws2 : (vote_units b r' g ++ concat (map (fin_block_units bs) ch) ++ hsh_batch bs ch ++ [uFh; uHrs; uLfr] ++ E)
+                     ++ set_change_units g = ((A1 ++ [uFh]) ++ [uHrs] ++ ([uLfr] ++ E)) ++ set_change_units g)
+        by (rewrite Hws; reflexivity).
       exists r', g. split.
-      * rewrite Hws, walk_app, Wmain, Rmain. exact W2.
-      * rewrite Hws, replay_app, Rmain. exact I3.
+      * rewrite Hws2, walk_app, Wmain, Rmain. exact W2.
+      * rewrite Hws2, replay_app, Rmain. exact I3.
     + exists r', g. split.
       * rewrite Hws. exact Wmain.
       * rewrite Hws, Rmain. exact IC.
@@ -571,11 +594,10 @@ Proof. intros [t1 ->] [t2 ->]. exists (t1 ++ t2). rewrite app_assoc. reflexivity
 Lemma step_blocks_extends cu st o : extends (s_blocks st) (s_blocks (snd (step cu st o))).
 Proof.
   unfold step. destruct (negb (valid st o)); [apply extends_refl|].
-  destruct o as [p dg|b r].
-  - match goal with |- context [if ?c then _ else _] => destruct c end; simpl;
-      eexists; reflexivity.
+  destruct o as [p ap bd|b r ap ep].
+  - destruct ap; simpl; eexists; reflexivity.
   - destruct (chain (s_blocks st) (s_fin st) b); [|apply extends_refl].
-    destruct (sched_applies (s_blocks st) (s_sched st) b); simpl; apply extends_refl.
+    destruct ap; simpl; apply extends_refl.
 Qed.
 
 Lemma run_blocks_extends cu ops : forall st, extends (s_blocks st) (s_blocks (snd (run cu st ops))).
@@ -700,11 +722,11 @@ Lemma recover_ok_meaning bs d b r s g : recover bs d = VOk b r s g ->
   d KSetID = Some (VNum g) /\ has d (KAuth g) = true /\ has d (KChange g) = true.
 Proof.
   unfold recover. intros H.
-  destruct (d KHrs) as [[| |r0 s0|]|] eqn:E1; try discriminate.
-  destruct (d (KFh r0 s0)) as [[|b0| |]|] eqn:E2; try discriminate.
+  destruct (d KHrs) as [[| |r0 s0| |]|] eqn:E1; try discriminate.
+  destruct (d (KFh r0 s0)) as [[|b0| | |]|] eqn:E2; try discriminate.
   destruct (has d (KHsh 0) && has d (KHdr b0) && state_ok bs d b0) eqn:E3; [|discriminate].
   destruct (has d (KBlb b0)) eqn:E4; [|discriminate].
-  destruct (d KSetID) as [[| | |g0]|] eqn:E5; try discriminate.
+  destruct (d KSetID) as [[| | |g0|]|] eqn:E5; try discriminate.
   destruct (has d (KAuth g0)) eqn:E6; [|discriminate].
   destruct (has d (KChange g0)) eqn:E7; [|discriminate].
   inversion H; subst.
